@@ -53,7 +53,7 @@ class AttrRoles:
     def _walk_init(self, init: FuncInfo, env: dict[str, str], depth: int):
         if depth > 6:
             return
-        self._stmts(init.body, init, dict(env), depth, loopvars={}, loopsrc={})
+        self._stmts(init.explicit_body, init, dict(env), depth, loopvars={}, loopsrc={})
 
     def _canon(self, e: ast.AST, env: dict[str, str], loopvars: dict[str, str]) -> str:
         e2 = _strip_convert(e)
@@ -109,13 +109,7 @@ class AttrRoles:
         return out
 
     def _stmts(self, body, init: FuncInfo, env, depth, loopvars, loopsrc):
-        from .normal import as_loop
-
-        expanded = []
-        for st in strip_docstring(body):
-            # comprehension statements that fill self.children are read as the loops they stand for
-            lp = as_loop(st) if ('self.children' in unparse(st.target if isinstance(st, ast.AugAssign) else st)[:60] and isinstance(st, (ast.AugAssign, ast.Expr))) else None
-            expanded.extend(lp if lp is not None else [st])
+        expanded = list(strip_docstring(body))
         for st in expanded:
             if isinstance(st, ast.Expr) and isinstance(st.value, ast.Call):
                 c = st.value
@@ -333,7 +327,7 @@ class RecordTemplate:
         )
 
     def _extract(self):
-        body = self.func.body
+        body = self.func.explicit_body
         # the accumulator: first variable assigned an f-string starting with '<'
         for st in body:
             if isinstance(st, ast.Assign) and isinstance(st.targets[0], ast.Name) and isinstance(st.value, ast.JoinedStr):
